@@ -3,14 +3,23 @@ From Coq Require Import String.
 From Mux Require Import Model.Bytes Model.Regex Model.Context Model.Syntax Model.Tree Model.Router
      Model.Match Model.Group Proofs.BytesFacts.
 
-(* a Hosts tree whose rejections leave the parameters alone (established elsewhere for reachable trees) *)
+(* a Hosts tree whose rejections leave the parameters alone (every reachable Hosts tree is:
+   Proofs/HostsRestore.v, hosts_reach_matcher_ok).  [ctx_nodup ps]: the context is a map. *)
 Definition hosts_clean (t : tree) : Prop :=
-  forall host ps ps', hosts_match t host ps = Some (false, ps') -> ps' = ps.
+  forall host ps ps', ctx_nodup ps -> hosts_match t host ps = Some (false, ps') -> ps' = ps.
 
-(* every Hosts matcher inside m is clean *)
+Lemma ctx_nodup_nil : ctx_nodup [].
+Proof. constructor. Qed.
+
+(* a Hosts tree whose Match keeps the context a map (true of every tree: Proofs/HostsRestore.v,
+   hosts_nodup_any; kept as a hypothesis here because this file does not depend on the tree proofs) *)
+Definition hosts_keeps_nodup (t : tree) : Prop :=
+  forall host ps ok ps', ctx_nodup ps -> hosts_match t host ps = Some (ok, ps') -> ctx_nodup ps'.
+
+(* every Hosts matcher inside m is clean and keeps the context a map *)
 Fixpoint matcher_ok (m : matcher) : Prop :=
   match m with
-  | MHosts t => hosts_clean t
+  | MHosts t => hosts_clean t /\ hosts_keeps_nodup t
   | MAnd l | MOr l =>
     (fix all (l : list matcher) : Prop :=
        match l with [] => True | x :: l' => matcher_ok x /\ all l' end) l
@@ -146,27 +155,27 @@ Proof.
 Qed.
 
 Lemma or_go_false : forall l,
-    Forall (fun m => forall q ps q' ps', matcher_ok m -> m_match m q ps = MR false q' ps' -> q' = q /\ ps' = ps) l ->
+    Forall (fun m => forall q ps q' ps', matcher_ok m -> ctx_nodup ps -> m_match m q ps = MR false q' ps' -> q' = q /\ ps' = ps) l ->
     (forall x, In x l -> matcher_ok x) ->
-    forall q ps a b, or_go l q ps = MR false a b -> a = q /\ b = ps.
+    forall q ps a b, ctx_nodup ps -> or_go l q ps = MR false a b -> a = q /\ b = ps.
 Proof.
-  intros l HF. induction HF as [|x l Hx HF IH]; intros Hok q ps a b H; cbn [or_go] in H.
+  intros l HF. induction HF as [|x l Hx HF IH]; intros Hok q ps a b Hn H; cbn [or_go] in H.
   - inversion H. split; reflexivity.
   - destruct (m_match x q ps) as [ok q2 ps2|] eqn:E; [destruct ok|].
     + discriminate H.
-    + destruct (Hx q ps q2 ps2 (Hok x (or_introl eq_refl)) E) as [Hq Hp]. subst q2 ps2.
-      apply IH; [intros y Hy; apply Hok; right; exact Hy | exact H].
+    + destruct (Hx q ps q2 ps2 (Hok x (or_introl eq_refl)) Hn E) as [Hq Hp]. subst q2 ps2.
+      apply IH; [intros y Hy; apply Hok; right; exact Hy | exact Hn | exact H].
     + discriminate H.
 Qed.
 
 Lemma reject_clean : forall m q ps q' ps',
-    matcher_ok m -> m_match m q ps = MR false q' ps' -> q' = q /\ ps' = ps.
+    matcher_ok m -> ctx_nodup ps -> m_match m q ps = MR false q' ps' -> q' = q /\ ps' = ps.
 Proof.
   intro m. induction m as [|t|name vs|name key vs|l IHl|l IHl] using matcher_ind';
-    intros q ps q' ps' Hok H.
+    intros q ps q' ps' Hok Hn H.
   - cbn [m_match] in H. discriminate H.
   - cbn [m_match] in H. destruct (hosts_match t (m_host q) ps) as [[ok ps2]|] eqn:E.
-    + inversion H. subst ok q' ps'. split; [reflexivity|]. exact (Hok _ _ _ E).
+    + inversion H. subst ok q' ps'. split; [reflexivity|]. exact (proj1 Hok _ _ _ Hn E).
     + discriminate H.
   - cbn [m_match] in H. destruct (pathver_match name vs (m_path q) ps) as [[ok p2] ps2] eqn:E.
     inversion H. subst ok q' ps'. destruct (pathver_false _ _ _ _ _ _ E) as [Hp Hps]. subst p2 ps2.
@@ -175,7 +184,78 @@ Proof.
     destruct (headerver_match name key vs (m_accept q) (m_parsed q) ps) as [ok ps2] eqn:E.
     inversion H. subst ok q' ps'. split; [reflexivity|]. exact (headerver_false _ _ _ _ _ _ _ E).
   - rewrite m_and in H. exact (and_go_false _ _ _ _ _ _ _ H).
-  - rewrite m_or in H. exact (or_go_false l IHl (proj1 (matcher_ok_or l) Hok) _ _ _ _ H).
+  - rewrite m_or in H. exact (or_go_false l IHl (proj1 (matcher_ok_or l) Hok) _ _ _ _ Hn H).
+Qed.
+
+(* ------------------------------------------------------------------ the context stays a map *)
+Lemma pathver_nodup : forall name vs path ps ok path' ps',
+    ctx_nodup ps -> pathver_match name vs path ps = (ok, path', ps') -> ctx_nodup ps'.
+Proof.
+  intros name vs path ps ok path' ps' Hn. induction vs as [|v vs IH]; cbn [pathver_match]; intro H.
+  - inversion H. subst. exact Hn.
+  - destruct (has_prefix path v); [|exact (IH H)].
+    inversion H. subst. destruct name; [exact Hn|]. unfold ctx_nodup, ctx_set. apply (nodup_aset ps _ _ Hn).
+Qed.
+
+Lemma headerver_nodup : forall name key vs accept parsed ps ok ps',
+    ctx_nodup ps -> headerver_match name key vs accept parsed ps = (ok, ps') -> ctx_nodup ps'.
+Proof.
+  intros name key vs accept parsed ps ok ps' Hn H. unfold headerver_match in H.
+  destruct accept as [|c accept]; [inversion H; subst; exact Hn|].
+  destruct parsed as [kv|]; [|inversion H; subst; exact Hn].
+  destruct (find_version _ vs) as [v|]; [|inversion H; subst; exact Hn].
+  inversion H. subst. destruct name; [exact Hn|]. unfold ctx_nodup, ctx_set. apply (nodup_aset ps _ _ Hn).
+Qed.
+
+Lemma and_go_nodup : forall l,
+    Forall (fun m => forall q ps q' ps', matcher_ok m -> ctx_nodup ps -> m_match m q ps = MR true q' ps' -> ctx_nodup ps') l ->
+    (forall x, In x l -> matcher_ok x) ->
+    forall q ps q0 ps0 a b, ctx_nodup ps0 -> and_go q ps l q0 ps0 = MR true a b -> ctx_nodup b.
+Proof.
+  intros l HF. induction HF as [|x l Hx HF IH]; intros Hok q ps q0 ps0 a b Hn H; cbn [and_go] in H.
+  - inversion H. subst. exact Hn.
+  - destruct (m_match x q0 ps0) as [ok q2 ps2|] eqn:E; [destruct ok|]; try discriminate H.
+    apply (IH (fun y Hy => Hok y (or_intror Hy)) q ps q2 ps2 a b); [|exact H].
+    exact (Hx _ _ _ _ (Hok x (or_introl eq_refl)) Hn E).
+Qed.
+
+Lemma or_go_nodup : forall l,
+    Forall (fun m => forall q ps q' ps', matcher_ok m -> ctx_nodup ps -> m_match m q ps = MR true q' ps' -> ctx_nodup ps') l ->
+    (forall x, In x l -> matcher_ok x) ->
+    forall q ps a b, ctx_nodup ps -> or_go l q ps = MR true a b -> ctx_nodup b.
+Proof.
+  intros l HF. induction HF as [|x l Hx HF IH]; intros Hok q ps a b Hn H; cbn [or_go] in H.
+  - discriminate H.
+  - destruct (m_match x q ps) as [ok q2 ps2|] eqn:E; [destruct ok|]; try discriminate H.
+    + inversion H. subst. exact (Hx _ _ _ _ (Hok x (or_introl eq_refl)) Hn E).
+    + destruct (reject_clean x q ps q2 ps2 (Hok x (or_introl eq_refl)) Hn E) as [Hq Hp]. subst q2 ps2.
+      exact (IH (fun y Hy => Hok y (or_intror Hy)) q ps a b Hn H).
+Qed.
+
+Lemma m_match_nodup_true : forall m q ps q' ps',
+    matcher_ok m -> ctx_nodup ps -> m_match m q ps = MR true q' ps' -> ctx_nodup ps'.
+Proof.
+  intro m. induction m as [|t|name vs|name key vs|l IHl|l IHl] using matcher_ind';
+    intros q ps q' ps' Hok Hn H.
+  - cbn [m_match] in H. inversion H. subst. exact Hn.
+  - cbn [m_match] in H. destruct (hosts_match t (m_host q) ps) as [[ok ps2]|] eqn:E; [|discriminate H].
+    inversion H. subst ok q' ps'. exact (proj2 Hok _ _ _ _ Hn E).
+  - cbn [m_match] in H. destruct (pathver_match name vs (m_path q) ps) as [[ok p2] ps2] eqn:E.
+    inversion H. subst. exact (pathver_nodup _ _ _ _ _ _ _ Hn E).
+  - cbn [m_match] in H.
+    destruct (headerver_match name key vs (m_accept q) (m_parsed q) ps) as [ok ps2] eqn:E.
+    inversion H. subst. exact (headerver_nodup _ _ _ _ _ _ _ _ Hn E).
+  - rewrite m_and in H. exact (and_go_nodup l IHl (proj1 (matcher_ok_and l) Hok) _ _ _ _ _ _ Hn H).
+  - rewrite m_or in H. exact (or_go_nodup l IHl (proj1 (matcher_ok_or l) Hok) _ _ _ _ Hn H).
+Qed.
+
+(* accepted or rejected: a matcher keeps the context a map *)
+Lemma m_match_nodup : forall m q ps ok q' ps',
+    matcher_ok m -> ctx_nodup ps -> m_match m q ps = MR ok q' ps' -> ctx_nodup ps'.
+Proof.
+  intros m q ps ok q' ps' Hok Hn H. destruct ok.
+  - exact (m_match_nodup_true m q ps q' ps' Hok Hn H).
+  - destruct (reject_clean m q ps q' ps' Hok Hn H) as [_ ->]. exact Hn.
 Qed.
 
 (* ------------------------------------------------------------------ And: all accepted, in a chain *)
@@ -200,19 +280,19 @@ Proof.
 Qed.
 
 (* ------------------------------------------------------------------ Or: the first accepting member *)
-Lemma or_first : forall l q ps q' ps', (forall x, In x l -> matcher_ok x) ->
+Lemma or_first : forall l q ps q' ps', (forall x, In x l -> matcher_ok x) -> ctx_nodup ps ->
     m_match (MOr l) q ps = MR true q' ps' ->
     exists pre x post, l = pre ++ x :: post /\
       (forall y, In y pre -> exists a b, m_match y q ps = MR false a b) /\
       m_match x q ps = MR true q' ps'.
 Proof.
-  intros l q ps q' ps' Hok H. rewrite m_or in H.
+  intros l q ps q' ps' Hok Hn H. rewrite m_or in H.
   induction l as [|x l IH]; cbn [or_go] in H.
   - discriminate H.
   - destruct (m_match x q ps) as [ok q2 ps2|] eqn:E; [destruct ok|].
     + inversion H. subst q2 ps2. exists [], x, l. split; [reflexivity|].
       split; [intros y Hy; destruct Hy | exact E].
-    + destruct (reject_clean x q ps q2 ps2 (Hok x (or_introl eq_refl)) E) as [Hq Hp]. subst q2 ps2.
+    + destruct (reject_clean x q ps q2 ps2 (Hok x (or_introl eq_refl)) Hn E) as [Hq Hp]. subst q2 ps2.
       destruct (IH (fun y Hy => Hok y (or_intror Hy)) H) as [pre [z [post [Hl [Hpre Hz]]]]].
       exists (x :: pre), z, post. split; [rewrite Hl; reflexivity|].
       split; [|exact Hz].
@@ -238,7 +318,7 @@ Proof.
   - destruct (m_match (gr_matcher x) q []) as [ok q2 ps2|] eqn:E; [destruct ok|].
     + inversion H. subst r q2. left. exists [], x, l, ps2. split; [reflexivity|].
       split; [intros y Hy; destruct Hy|]. split; [exact E | reflexivity].
-    + destruct (reject_clean _ q [] q2 ps2 (Hok x (or_introl eq_refl)) E) as [Hq Hp]. subst q2 ps2.
+    + destruct (reject_clean _ q [] q2 ps2 (Hok x (or_introl eq_refl)) ctx_nodup_nil E) as [Hq Hp]. subst q2 ps2.
       destruct (IH (fun y Hy => Hok y (or_intror Hy)) H) as [Hl|Hr].
       * destruct Hl as [pre [z [post [ps1 [Hl [Hpre [Hz Hr]]]]]]]. left.
         exists (x :: pre), z, post, ps1. split; [rewrite Hl; reflexivity|].
@@ -272,7 +352,7 @@ Proof.
   intros l q rs method. induction l as [|x l IH]; intros Hok Hrej; cbn [g_scan].
   - reflexivity.
   - destruct (Hrej x (or_introl eq_refl)) as [a [b E]]. rewrite E.
-    destruct (reject_clean _ q [] a b (Hok x (or_introl eq_refl)) E) as [Hq Hp]. subst a b.
+    destruct (reject_clean _ q [] a b (Hok x (or_introl eq_refl)) ctx_nodup_nil E) as [Hq Hp]. subst a b.
     apply IH; [intros y Hy; apply Hok; right; exact Hy | intros y Hy; apply Hrej; right; exact Hy].
 Qed.
 
